@@ -24,7 +24,7 @@ RULE = ("every gate class x every target_qubit option x every basis input; SWAP 
         "pi/4, +-2pi, ...), every multiple of pi/4, pi/3 and pi up to |k|=64 with its floating-point neighbours, accumulated "
         "and linspace sweep values, plus seeded random angles; distinct = (gate, option, angle); non-trivial = every case "
         "(each checks a full amplitude matrix incl. relative phases)")
-MANDATORY = ["single_qubit", "rotation", "CZ", "CNOT", "CZ_Heralded", "CNOT_Heralded", "CCZ", "CCNOT", "SWAP",
+MANDATORY = ["gate_object_used_then_rechecked", "single_qubit", "rotation", "CZ", "CNOT", "CZ_Heralded", "CNOT_Heralded", "CCZ", "CCNOT", "SWAP",
              "heralded_leakage_checked", "second_pass_shuffled"]
 DECIDING = ["mon.gate_postconditions"]
 BUDGET = {"quick": 20, "thorough": 240}
@@ -192,11 +192,42 @@ def run(ctx):
 
 
 def run_job(ctx, q, name, args):
+    g = None
     try:
-        getattr(q, name)(*args)
+        g = getattr(q, name)(*args)
     except Exception as e:  # noqa: BLE001
         ctx.violation(f"constructing {name}{args} raised {type(e).__name__}: {e}", case={"gate": name, "args": args},
                       mechanism="gate_constructor_raised:" + name, monitor="driver")
+    if g is not None and (name not in ROT or ctx.rng.random() < 0.04):
+        # the gate object is then *used* - copied, summed, added to a larger circuit - and what was derived from it is
+        # extended and rewritten in place; the gate itself must still be the gate it names
+        rng = ctx.rng
+        try:
+            n = g.n_modes - len(g._internal_modes)
+            how = str(rng.choice(["copy", "sum", "add"])) if not g.heralds["input"] else str(rng.choice(["copy", "add"]))
+            if how == "copy":
+                d = g.copy()
+            elif how == "sum":
+                d = (g + g) if rng.random() < 0.5 else (g + g.copy())
+            else:
+                import lightworks as _lw  # noqa: PLC0415
+                d = _lw.Circuit(n + 1)
+                d.add(g, int(rng.integers(0, 2)), bool(rng.random() < 0.5))
+            nd = d.n_modes - len(d._internal_modes)
+            if nd >= 2:
+                a = int(rng.integers(nd - 1))
+                d.mode_swaps({a: a + 1, a + 1: a})
+                if rng.random() < 0.5:
+                    d.mode_swaps({a: a + 1, a + 1: a})
+            for rw in rng.permutation(["compress_mode_swaps", "remove_non_adjacent_bs", "unpack_groups"])[: int(rng.integers(1, 4))]:
+                getattr(d, str(rw))()
+            ctx.bucket("gate_object_used_then_rechecked")
+            for p in check_gate(name, args, g):
+                ctx.violation(f"{name}{args} after it was used ({how}) and the derived circuit was rewritten: {p}",
+                              case={"gate": name, "args": list(args), "used_as": how},
+                              mechanism="gate_after_use:" + p.split(":")[0] + ":" + name, monitor="gate re-check after use")
+        except Exception as e:  # noqa: BLE001
+            ctx.count("use_probe_raised:" + type(e).__name__)
     if name in SINGLE:
         ctx.bucket("single_qubit")
     elif name in ROT:
